@@ -64,6 +64,8 @@ func doDump(p *Prog, what string) {
 			}
 		}
 		fmt.Printf("ok=%d bad=%d\n", nok, nbad)
+	case strings.HasPrefix(what, "paths:"):
+		dumpPaths(p, strings.TrimPrefix(what, "paths:"))
 	case what == "externals":
 		dumpExternals(p)
 	case what == "funcs":
@@ -150,5 +152,12 @@ func dumpExternals(p *Prog) {
 	}
 	for k, v := range cnt {
 		fmt.Printf("%3d %s\n", v, k)
+	}
+}
+
+func dumpPaths(p *Prog, name string) {
+	f := p.Fn(name)
+	for _, lp := range explorePaths(p, f) {
+		fmt.Println(lp.outcome, lp.decisions, lp.effects)
 	}
 }
